@@ -159,7 +159,7 @@ Definition leave_here (c : client) (e : event) (rec_epoch : N) : client * rk :=
   let k := kc c in
   if existsb (N.eqb (100000 + e_id e)) (k_seen k) then fail_unprocessable c e rec_epoch else
   let k0 := with_seen (with_props k (k_props k ++ [e_id e])) ((100000 + e_id e) :: k_seen k) in
-  let auto := is_admin c && (match k_pending k with Some _ => false | None => true end) in
+  let auto := is_admin c && ((match k_pending k with Some _ => false | None => true end) && self_remove e) in
   let k1 := if auto then with_pending k0 (Some (1000 + e_id e * 8 + me c, 0, [e_author e])) else k0 in
   (put_dedup (set_core c k1) (e_id e) PS_PROCESSED (Some (k_epoch k)) None, if auto then RAuto else RPending).
 
